@@ -151,7 +151,7 @@ PROPERTIES = {
             "assumptions": S_ALL + ["S2: `/` is exact real division and floor the real floor (float rounding of numpy is NOT modelled; "
                                     "the stand-in sweeps coefficient magnitudes up to 130 with exact quotients for that)",
                                     "variable bounds lie within the library's default 16-bit range (precondition of the property)"],
-            "explanation": "deductive, bounded in shape (1x1, 1x2, 2x1, 2x2) and unbounded in values: the real bodies of row_bounds, "
+            "explanation": "deductive, bounded in shape (1x1, 1x2, 2x1, 2x2; row_bounds, never-widen and n_row_combinations also 1x3, 3x1, 2x3; column ids in non-sorted order) and unbounded in values: the real bodies of row_bounds, "
                            "tighten_column_bounds, n_row_combinations (with column_bounds, A, b, A_max) run on arrays with symbolic "
                            "integer coefficients, right-hand sides and bounds: row bounds contain every box point and are attained; "
                            "tightened bounds contain every in-bounds integer solution and never widen; combination counts are the "
